@@ -45,7 +45,8 @@ type WiCfg struct {
 	Base     string   `json:"base"`    // path prefix of the backend address
 	Strategy string   `json:"strategy"`
 	NBack    int      `json:"nback"`
-	Handler  int      `json:"handler"` // server.timeouts.handler (documented setting)
+	Handler  int      `json:"handler"`           // server.timeouts.handler (documented setting)
+	Breaker  bool     `json:"breaker,omitempty"` // circuit breaker enabled with thresholds far out of reach: it stays closed and must not show
 }
 type WiReq struct {
 	Method  string      `json:"method"`
@@ -56,14 +57,15 @@ type WiReq struct {
 	Framing string      `json:"framing"` // "" cl chunked
 }
 type WiScript struct {
-	Interim [][][2]string `json:"interim,omitempty"` // one entry per 103 response: its headers
-	Status  int           `json:"status"`
-	Headers [][2]string   `json:"headers"`
-	Segs    []int         `json:"segs"`
-	Flush   bool          `json:"flush"` // flush after every segment and wait until the client has it
-	CL      bool          `json:"cl"`    // declare Content-Length
-	HeadFlush bool        `json:"headflush,omitempty"` // flush the header block alone first and wait until the client has it
-	Cut     bool          `json:"cut,omitempty"`       // the backend dies after the last (flushed) segment: no terminating chunk
+	Interim   [][][2]string `json:"interim,omitempty"` // one entry per 103 response: its headers
+	Status    int           `json:"status"`
+	Headers   [][2]string   `json:"headers"`
+	Segs      []int         `json:"segs"`
+	Flush     bool          `json:"flush"`               // flush after every segment and wait until the client has it
+	CL        bool          `json:"cl"`                  // declare Content-Length
+	HeadFlush bool          `json:"headflush,omitempty"` // flush the header block alone first and wait until the client has it
+	Cut       bool          `json:"cut,omitempty"`       // the backend dies after the last (flushed) segment: no terminating chunk
+	Delay     int           `json:"delay,omitempty"`     // the backend thinks for so many milliseconds before it answers
 }
 type WiCase struct {
 	Cfg    WiCfg    `json:"cfg"`
@@ -103,6 +105,11 @@ func (b *wiBackend) ServeHTTP(w http.ResponseWriter, r *http.Request) {
 	}
 	body, _ := io.ReadAll(r.Body)
 	b.mu.Lock()
+	if d := b.script.Delay; d > 0 {
+		b.mu.Unlock()
+		time.Sleep(time.Duration(d) * time.Millisecond)
+		b.mu.Lock()
+	}
 	s := b.script
 	progress := b.progress
 	v := wiBackView{called: true, method: r.Method, host: r.Host, hdr: r.Header.Clone(), bodyLen: len(body), bodyOK: bytes.Equal(body, detBytes(7, len(body)))}
@@ -246,6 +253,9 @@ func wiConfig(c WiCfg, port int, backendURLs []string) *config.Config {
 	}
 	if c.Passive {
 		cfg.HealthChecks.Passive = config.PassiveHealthCheckConfig{Enabled: true, UnhealthyThreshold: 1, UnhealthyTimeout: 3600}
+	}
+	if c.Breaker {
+		cfg.CircuitBreaker = config.CircuitBreakerConfig{Enabled: true, MaxRequests: 1, IntervalSeconds: 3600, TimeoutSeconds: 3600, FailureThreshold: 1000000, SuccessThreshold: 1}
 	}
 	cfg.Logging = config.LoggingConfig{Level: "error", Format: "json",
 		RequestID: config.RequestIDConfig{Enabled: c.ReqID, Header: c.ReqHdr}, Trace: config.TraceConfig{Enabled: c.Trace, Header: c.TraceHdr}}
@@ -642,6 +652,7 @@ func genWiCfg(g *Rng) WiCfg {
 	}
 	c.Limit = g.Chance(35)
 	c.Passive = g.Chance(35)
+	c.Breaker = g.Chance(35)
 	if g.Chance(40) {
 		c.Handler = []int{30, 60}[g.Intn(2)]
 	}
@@ -759,6 +770,10 @@ func genWiCase(g *Rng, cfg WiCfg, k int, gidx int) WiCase {
 		r.Framing = []string{"cl", "cl", "chunked"}[g.Intn(3)]
 		r.BodyLen = []int{0, 1, 15, 16, 17, 63, 64, 65, 1000, 40000, 100000}[g.Intn(11)]
 	}
+	// an upload announced with Expect: 100-continue: the client must see the interim responses a direct client sees, once
+	if r.BodyLen > 0 && g.Chance(20) {
+		r.Headers = append(r.Headers, [2]string{"Expect", "100-continue"})
+	}
 	for _, p := range cfg.Chain {
 		// a chunked body above a size limit is cut by MaxBytesReader: that is size_limit's own transformation (C14), not this suite's
 		if p.Name == "size_limit" && r.Framing == "chunked" && r.BodyLen > p.MaxReq {
@@ -832,7 +847,9 @@ func genWiCase(g *Rng, cfg WiCfg, k int, gidx int) WiCase {
 
 func wiCorpus() []wiGroup {
 	idcfg := WiCfg{ReqID: true, Trace: true, Strategy: "round_robin", NBack: 1}
-	mk := func(cfg WiCfg, phase string, r WiReq, s WiScript) WiCase { return WiCase{Cfg: cfg, Phase: phase, Req: r, Script: s} }
+	mk := func(cfg WiCfg, phase string, r WiReq, s WiScript) WiCase {
+		return WiCase{Cfg: cfg, Phase: phase, Req: r, Script: s}
+	}
 	xf := func(i int) [2]string { return [2]string{"X-Forwarded-For", fmt.Sprintf("10.250.0.%d", i)} }
 	sse := WiScript{Status: 200, Headers: [][2]string{{"Content-Type", "text/event-stream"}}, Segs: []int{14, 14, 14}, Flush: true}
 	g1 := wiGroup{cfg: idcfg, cases: []WiCase{
@@ -866,7 +883,20 @@ func wiCorpus() []wiGroup {
 		mk(lim, "limited", WiReq{Method: "GET", Path: "/lim", Headers: [][2]string{xf(13), {"X-API-Key", "k1"}, {"X-Request-ID", "mine"}}}, ok),
 		mk(lim, "ejected", WiReq{Method: "GET", Path: "/ej", Headers: [][2]string{xf(14), {"X-API-Key", "k1"}}}, ok),
 	}}
-	return []wiGroup{g1, g2}
+	// the documented handler timeout set below a slow backend's thinking time (nothing in the chain may turn that into an
+	// answer of its own without the IDs); the breaker enabled and closed in front of chunked error pages; an upload announced
+	// with Expect: 100-continue, accepted and refused from the header alone
+	slow := WiCfg{ReqID: true, Trace: true, Strategy: "round_robin", NBack: 1, Handler: 1, Breaker: true,
+		Chain: []WiPlug{{Name: "custom-auth", Key: "k1"}}}
+	g3 := wiGroup{cfg: slow, cases: []WiCase{
+		mk(slow, "normal", WiReq{Method: "GET", Path: "/slow", Headers: [][2]string{xf(30), {"X-API-Key", "k1"}, {"X-Request-ID", "slow-1"}}}, WiScript{Status: 200, Segs: []int{6}, Delay: 1400}),
+		mk(slow, "normal", WiReq{Method: "GET", Path: "/err-chunked", Headers: [][2]string{xf(31), {"X-API-Key", "k1"}}}, WiScript{Status: 500, Headers: [][2]string{{"Content-Type", "text/plain"}}, Segs: []int{10}, Flush: true}),
+		mk(slow, "normal", WiReq{Method: "GET", Path: "/err-long", Headers: [][2]string{xf(32), {"X-API-Key", "k1"}}}, WiScript{Status: 503, Headers: [][2]string{{"Content-Type", "text/html"}}, Segs: []int{3000}}),
+		mk(slow, "normal", WiReq{Method: "PUT", Path: "/upload", Headers: [][2]string{xf(33), {"X-API-Key", "k1"}, {"Expect", "100-continue"}}, BodyLen: 1000, Framing: "cl"}, WiScript{Status: 201, Segs: []int{2}}),
+		mk(slow, "normal", WiReq{Method: "PUT", Path: "/upload-noauth", Headers: [][2]string{xf(34), {"Expect", "100-continue"}}, BodyLen: 1000, Framing: "cl"}, WiScript{Status: 201, Segs: []int{2}}),
+		mk(slow, "normal", WiReq{Method: "POST", Path: "/upload-chunked", Headers: [][2]string{xf(35), {"X-API-Key", "k1"}, {"Expect", "100-continue"}, {"X-Request-ID", "\u00a0"}}, BodyLen: 64, Framing: "chunked"}, WiScript{Status: 200, Segs: []int{2}}),
+	}}
+	return []wiGroup{g1, g2, g3}
 }
 
 func TestWire(t *testing.T) {
